@@ -79,6 +79,15 @@ def run(chk):
     for nproc in (2, 3):
         scen.append(dict(np=nproc, calls=[dict(n=3, order=[1, 0, 2] if nproc > 1 else [0, 1, 2], fail=[1]), dict(n=4, order=[0, 1, 2, 3], fail=[]),
                                            dict(n=2, order=[1, 0], fail=[0, 1]), dict(n=3, order=[0, 1, 2], fail=[])]))
+    # what the failing task raises: exceptions that the standard pickle cannot send between processes (a class defined inside a function, as
+    # mesh.followPerpendicular's MaxIterException; an unpicklable attribute; a constructor with a required extra argument) -- the caller must still
+    # get an exception (never block), also on the re-used object
+    for kind in ("local-class", "lambda-attribute", "two-arguments"):
+        for nproc in (2, 3):
+            for (n, order, fail) in ((1, [0], [0]), (3, [0, 1, 2], [0]), (3, [1, 0, 2], [2]), (4, [1, 0, 3, 2], [1, 3])):
+                if n == 4 and nproc == 2:
+                    order = [1, 0, 2, 3]
+                scen.append(dict(np=nproc, calls=[dict(n=n, order=order, fail=fail, exc=kind), dict(n=2, order=[0, 1], fail=[])]))
     os.makedirs(os.path.join(common.CACHE, "c13tmp"), exist_ok=True)
     chunks = [scen[k::8] for k in range(8)]
     from concurrent.futures import ThreadPoolExecutor
@@ -98,6 +107,10 @@ def run(chk):
                 nrun += 1
                 want = expected(call["n"], call["fail"])
                 if ob == want:
+                    nagree += 1
+                    continue
+                if call.get("exc", "module-class") != "module-class" and call["fail"] and ob[0] == "exc":
+                    # an exception that cannot cross the process boundary arrives as a replacement carrying its description: still an exception
                     nagree += 1
                     continue
                 first = sc["calls"].index(call) == 0
@@ -141,6 +154,8 @@ def run(chk):
     # grid level: number_of_processors=2 vs 1, value for value
     ngrid = 0
     cfgs = [corpus.CONFIGS["lsn"], dict(corpus.CONFIGS["lsn"], name="lsn_np2", options=dict(corpus.CONFIGS["lsn"]["options"], number_of_processors=2))]
+    # non-orthogonal, no y-boundary guard cells, double null: contours are EXTENDED inside the workers to reach the wall (work done on pickled copies)
+    cfgs += [corpus.CONFIGS["cdn_nonorth"], dict(corpus.CONFIGS["cdn_nonorth"], name="cdn_nonorth_np2", options=dict(corpus.CONFIGS["cdn_nonorth"]["options"], number_of_processors=2))]
     if chk.tier == "thorough":
         cfgs += [corpus.CONFIGS["circ"], dict(corpus.CONFIGS["circ"], name="circ_np3", options=dict(corpus.CONFIGS["circ"]["options"], number_of_processors=3))]
     gs = corpus.get(names=[], extra_cfgs=cfgs)
